@@ -661,4 +661,166 @@ theorem export_key_delivery_independent_file' (args : Args) (legacy₁ legacy₂
 
 end C09
 
+-- ====================================================================== 5. C11 at the level of the files
+section C11
+open TLX.Ingest
+
+/-- what the read loop under `-c` decides about one reader item: a TCP / UDP frame whose verdict bit is false
+    (`ExportInputs.ingest_verdict_rfc1071`: the RFC 1071 receiver rejects it) -/
+def itemRejected (it : Container.Item) : Bool :=
+  match one true 0 it with
+  | .ok (x, _) => rejected x
+  | .error _ => false
+
+theorem rejected_setTag (t : Nat) (x : Item Keylog.Key) : rejected (setTag t x) = rejected x := by
+  cases x <;> rfl
+
+theorem one_rejected (tag : Nat) (it : Container.Item) (x : Item Keylog.Key) (oi : Option Pipeline.Info)
+    (h : one true tag it = .ok (x, oi)) : itemRejected it = rejected x := by
+  have := one_tag_indep true tag 0 it
+  rw [h] at this
+  simp only [itemRejected, this, Except.map, rejected_setTag]
+
+theorem framePkt_c_irrelevant (tag us : Nat) (buf : Bytes) (p : Pkt) (i : Pipeline.Info)
+    (h : framePkt true tag us buf = .ok (p, i)) (hr : rejected (.frame p) = false) :
+    framePkt false tag us buf = .ok (p, i) := by
+  unfold framePkt at h ⊢
+  cases hd : Dissect.dissect buf with
+  | error e => rw [hd] at h; cases h
+  | ok d =>
+    rw [hd] at h
+    cases d with
+    | notIp => exact h
+    | ip x =>
+      simp only [if_true, Bool.false_eq_true, if_false] at h ⊢
+      cases hv : verdict x with
+      | error e => rw [hv] at h; cases h
+      | ok v =>
+        rw [hv] at h
+        simp only at h
+        cases hx : x.l4 with
+        | other => rw [hx] at h; exact h
+        | tcp sp dp sq ak pl =>
+          rw [hx] at h
+          simp only [Except.ok.injEq, Prod.mk.injEq] at h
+          obtain ⟨rfl, rfl⟩ := h
+          simp only [rejected, Bool.and_eq_false_imp, Bool.not_eq_true', bne_eq_false_iff_eq] at hr
+          have : v.getD true = true := by
+            cases hb : v.getD true with
+            | true => rfl
+            | false => have := hr hb; cases this
+          simp only [Option.getD_none, this]
+        | udp sp dp pl =>
+          rw [hx] at h
+          simp only [Except.ok.injEq, Prod.mk.injEq] at h
+          obtain ⟨rfl, rfl⟩ := h
+          simp only [rejected, Bool.and_eq_false_imp, Bool.not_eq_true', bne_eq_false_iff_eq] at hr
+          have : v.getD true = true := by
+            cases hb : v.getD true with
+            | true => rfl
+            | false => have := hr hb; cases this
+          simp only [Option.getD_none, this]
+
+theorem one_c_irrelevant (tag : Nat) (it : Container.Item) (x : Item Keylog.Key) (oi : Option Pipeline.Info)
+    (h : one true tag it = .ok (x, oi)) (hr : rejected x = false) : one false tag it = .ok (x, oi) := by
+  cases it with
+  | dsb s => exact h
+  | pkt t buf =>
+    simp only [one] at h ⊢
+    by_cases hm : isMinusOne t = true
+    · simp only [hm, if_true] at h ⊢; exact h
+    · simp only [hm, Bool.false_eq_true, if_false] at h ⊢
+      cases hf : framePkt true tag (Container.usOfFloat t.toFloat) buf with
+      | error e => rw [hf] at h; cases h
+      | ok v =>
+        obtain ⟨p, i⟩ := v
+        rw [hf] at h
+        simp only [Except.ok.injEq, Prod.mk.injEq] at h
+        obtain ⟨rfl, rfl⟩ := h
+        rw [framePkt_c_irrelevant tag _ buf p i hf hr]
+
+/-- on a capture without rejected frames the read loop does the same with and without `-c` -/
+theorem go_c_irrelevant (l : List Container.Item) (hl : ∀ it ∈ l, itemRejected it = false) :
+    ∀ tag X IS, go Keylog.srcHexClass true tag l = .ok (X, IS) → go Keylog.srcHexClass false tag l = .ok (X, IS) := by
+  induction l with
+  | nil => intro tag X IS h; exact h
+  | cons it rest ih =>
+    intro tag X IS h
+    rw [go_cons] at h ⊢
+    cases h1 : one true tag it with
+    | error e => rw [h1] at h; cases h
+    | ok v =>
+      obtain ⟨x, oi⟩ := v
+      rw [h1] at h
+      simp only at h
+      cases hg : go Keylog.srcHexClass true (tag + 1) rest with
+      | error e => rw [hg] at h; cases h
+      | ok w =>
+        obtain ⟨Xr, ISr⟩ := w
+        rw [hg] at h
+        have hx : rejected x = false := by rw [← one_rejected tag it x oi h1]; exact hl it (by simp)
+        rw [one_c_irrelevant tag it x oi h1 hx]
+        simp only
+        rw [ih (fun y hy => hl y (by simp [hy])) (tag + 1) Xr ISr hg]
+        exact h
+
+theorem keptOf_eq_filter (its : List Container.Item) :
+    ∀ tag X IS, go Keylog.srcHexClass true tag its = .ok (X, IS) →
+      keptOf (fun it => !itemRejected it) its X = X.filter fun x => !rejected x := by
+  induction its with
+  | nil => intro tag X IS h; simp only [go, Except.ok.injEq, Prod.mk.injEq] at h; rw [← h.1]; rfl
+  | cons it rest ih =>
+    intro tag X IS h
+    rw [go_cons] at h
+    cases h1 : one true tag it with
+    | error e => rw [h1] at h; cases h
+    | ok v =>
+      obtain ⟨x, oi⟩ := v
+      rw [h1] at h
+      simp only at h
+      cases hg : go Keylog.srcHexClass true (tag + 1) rest with
+      | error e => rw [hg] at h; cases h
+      | ok w =>
+        obtain ⟨Xr, ISr⟩ := w
+        rw [hg] at h
+        simp only [Except.ok.injEq, Prod.mk.injEq] at h
+        rw [← h.1]
+        simp only [keptOf, List.filter_cons, one_rejected tag it x oi h1, ih (tag + 1) Xr ISr hg]
+
+/-- **C11, whole program, reader level.** `cap`: any capture file the `-c` run reads to the end (`hok`); `cap'`: a
+    capture whose reader delivers the same items minus exactly the rejected frames. Then the run with `-c` on `cap` and the
+    run WITHOUT `-c` on `cap'` write byte-identical output files (or end in the same way). -/
+theorem export_checksum_filter_reader (args : Args) (legacy legacy' : Bool) (kl : Option Keylog.Str) (cap cap' : Bytes)
+    (its : List Container.Item) (ended : Option Container.Err)
+    (hr : Container.readPrefix legacy cap = .ok (its, ended))
+    (hr' : Container.readPrefix legacy' cap' = .ok (its.filter fun it => !itemRejected it, ended))
+    (hok : ∃ X IS, go Keylog.srcHexClass true 0 its = .ok (X, IS)) :
+    exportFile mask H P (argsC args true) legacy kl cap = exportFile mask H P (argsC args false) legacy' kl cap' := by
+  obtain ⟨X, IS, hg⟩ := hok
+  obtain ⟨X', IS', g1, g2⟩ := go_filter true (fun it => !itemRejected it) its 0 0 X IS hg
+  rw [keptOf_eq_filter its 0 X IS hg] at g2
+  have g1' : go Keylog.srcHexClass false 0 (its.filter fun it => !itemRejected it) = .ok (X', IS') :=
+    go_c_irrelevant _ (fun it hit => by simpa using (List.mem_filter.mp hit).2) 0 X' IS' g1
+  rw [exportFile_stages, exportFile_stages]
+  have ho : optionsBad (freshState : Export.Prior) (argsC args true) =
+      optionsBad (freshState : Export.Prior) (argsC args false) := rfl
+  rw [ho]
+  split
+  · rfl
+  · simp only [argsC]
+    unfold Ingest.itemsWith
+    rw [hr, hr']
+    simp only [hg, g1']
+    cases ended with
+    | some e => rfl
+    | none =>
+      simp only
+      have e1 := export_checksum_filter_frames mask H P (Ingest.lookup IS) freshState args (fileKeysOf kl) X
+      have e2 := framesFrom_alike mask H P (Ingest.lookup IS) (Ingest.lookup IS') freshState (argsC args false)
+        (fileKeysOf kl) g2
+      simp only [argsC] at e1 e2
+      rw [e1, e2]
+
+end C11
+
 end TLX.Props.ExportInputs2
